@@ -1,7 +1,7 @@
 (* Extract.v — extraction of the executable models (ExtrOcamlBasic only; Z, N, positive and
    nat stay Coq's own inductive datatypes; no Extract Constant). *)
 From Coq Require Extraction ExtrOcamlBasic.
-From CgreenVerif Require Import Defs Runner Lemmas_Props Mocks CStr Lemmas_Constraints Printf Vector Values Params.
+From CgreenVerif Require Import Defs Runner Lemmas_Props Mocks CStr Lemmas_Constraints Printf Vector Values Params Doubles.
 From CgreenVerif.Gen Require Import Facts.
 
 Extraction "../ocaml/model.ml"
@@ -26,5 +26,7 @@ Extraction "../ocaml/model.ml"
   Facts.vector_src Facts.suite_test_src Facts.suite_suite_src Facts.crumb_src
   Values.return_m Values.double_m Values.by_value_m Values.by_value_calls_m Values.set_contents_m Values.capture_m Values.decode Facts.values_src
   Params.names Params.markers Params.count_params Params.bind_clause
+  Doubles.eq_bits Doubles.lesser_bits Doubles.greater_bits Doubles.eq_largest_bits Doubles.ord_largest_bits Doubles.accuracy_exponent
+  Facts.figures_default Facts.do_not_want_double_negates
   Facts.verdict_suite Facts.verdict_single Facts.rk_text Facts.rk_cute Facts.rk_xml
   Facts.rk_libxml Facts.rk_cdash Facts.msg_codes.
